@@ -105,21 +105,21 @@ def ground_truth(args, truth_file):
             filenames, (list, tuple)
         ), "Expected Union[list, tuple] got {!r}".format(type(filenames).__name__)
 
-        effect.update(
-            map(
-                lambda filename: (truth_file, False)
-                if fun_name == args.truth
-                and path.realpath(path.expanduser(filename)) == truth_file
-                else _conform_filename(
-                    filename=filename,
-                    search=search,
-                    emit_func=emit_func,
-                    replacement_node_ir=gold_ir,
-                    type_wanted=type_wanted,
-                ),
-                filenames,
-            )
-        )
+        # A file named under more than one kind is reported as modified if any of them modified it
+        for filename, changed in map(
+            lambda filename: (truth_file, False)
+            if fun_name == args.truth
+            and path.realpath(path.expanduser(filename)) == truth_file
+            else _conform_filename(
+                filename=filename,
+                search=search,
+                emit_func=emit_func,
+                replacement_node_ir=gold_ir,
+                type_wanted=type_wanted,
+            ),
+            filenames,
+        ):
+            effect[filename] = effect.get(filename, False) or changed
 
     return effect
 
